@@ -16,7 +16,12 @@ from ..numpy_utils import (
     _numpy_cache_blocklist,
 )
 from ..utils import AbstractTypeResolver
-from .synced_collection import SyncedCollection, _detached, _sc_resolver
+from .synced_collection import (
+    SyncedCollection,
+    _detached,
+    _is_unchanged_scalar,
+    _sc_resolver,
+)
 
 # Identifies sequences, which are the base type for this class.
 _sequence_resolver = AbstractTypeResolver(
@@ -143,7 +148,7 @@ class SyncedList(SyncedCollection, MutableSequence):
                 # inserting at the beginning will require reconverting all
                 # elements of the data.
                 for i in range(min(len(self), len(data))):
-                    if data[i] == self._data[i]:
+                    if _is_unchanged_scalar(data[i], self._data[i]):
                         continue
                     if (
                         data[i] is not None
